@@ -71,7 +71,15 @@ OPS = [
     # that fetch is the last-but-one field (link set / 4.04 / wrong content format / not link-format); "+base" is refused outright
     ("simple", "e1", None, 60, "L2", "rd"), ("simple", "e1", None, 60, "404", "rd"), ("simple", "e2", None, None, "cf", "core"),
     ("simple", "e1", "d1", 120, "garbage", "rd"), ("simple", "e1", None, 60, "L1+base", "rd"), ("simple", "e2", None, 60, "L1", "core"),
+    # an endpoint name that spells like "name.sector" of another registration: (e1.d1, no sector) and (e1, d1) are two endpoints
+    ("reg", "e1.d1", None, 60, "L2", None),
+    # the endpoint has moved: its update (without any parameter / with one) comes from another address, and the base follows
+    ("updfrom", 0, "", 3), ("updfrom", 0, "lt=60", 3),
 ]
+CORE4 = [("reg", "e1", None, 120, "L2", None), ("reg", "e1", "d1", None, "L1", None), ("reg", "e2", None, 60, "L2", None), ("reg", "e1", None, 0, "L1", None),
+         ("badreg", "lt=abc"), ("badreg", "body"), ("upd", 0, "lt=120"), ("upd", 0, "x=2"), ("upd", 0, "ep=e9"), ("upd", 0, "body"), ("upd", 1, "lt=60"),
+         ("upd", 0, "x=1&y=2"), ("simple", "e1", None, 60, "L2", "rd"), ("simple", "e1", None, 60, "404", "rd"), ("reg", "e1.d1", None, 60, "L2", None),
+         ("upd", "nowhere", "lt=60")]
 INVALID_UPDATES = ("ep=e9", "lt=abc", "lt=30&base=coap://[2001:db8::a]&base=coap://[2001:db8::b]")
 
 
@@ -194,6 +202,7 @@ def apply(st, op):
         q = ["ep=" + epn] + (["d=" + d] if d else []) + (["lt=%d" % lt] if lt is not None else []) + ([extra] if extra else [])
         src = 1 if epn == "e1" else 2
         r = request(st, POST, RDP, q, LINKS[links][0], 40, ep=src)
+        # (a registration is a complete new write: whatever an earlier update from elsewhere did to the base is over)
         key = (epn, d)
         loc = tuple(r.opt.location_path) if hasattr(r, "opt") else None
         if not (hasattr(r, "code") and int(r.code) == 65 and loc):
@@ -269,6 +278,24 @@ def apply(st, op):
             cf = 0
         r = request(st, POST, RDP, q, body, cf, ep=1)
         expect_error = True
+    elif op[0] == "updfrom":
+        _, which, arg, src = op
+        if which >= len(st.locs):
+            return
+        loc = st.locs[which]
+        target = [k for k, m in live(st).items() if m["loc"] == loc]
+        m = st.model[target[0]] if target else None
+        r = request(st, POST, loc, [arg] if arg else [], ep=src)
+        if m is None:
+            expect_error = True
+        else:
+            if int(r.code) != 68:
+                viol(st, "valid-update-refused", "2.04", repr(r), "cli/rd.py:RegistrationResource.render_post", "updfrom")
+            if arg:
+                m["lt"] = int(arg.split("=")[1])
+            if not m.get("explicit_base"):
+                m["base"] = "coap://[2001:db8::%x]:40000" % src      # the base that was derived from the source address follows it
+            m["written"] = now
     elif op[0] in ("upd", "put", "del"):
         which = op[1]
         if which == "nowhere":
@@ -306,8 +333,11 @@ def apply(st, op):
                             m["lt"] = int(v)
                         elif k == "base":
                             m["base"] = v        # an explicit base replaces the one derived from the source address, for every link
+                            m["explicit_base"] = True
                         else:
                             m["params"][k] = [v]
+                    if not m.get("explicit_base"):
+                        m["base"] = "coap://[2001:db8::%x]:40000" % src      # a base derived from the source address follows every write
                     m["written"] = now
         else:
             arg = op[2]
@@ -325,6 +355,8 @@ def apply(st, op):
                     if int(r.code) != 68:
                         viol(st, "valid-update-refused", "2.04", repr(r), "cli/rd.py:RegistrationResource.render_put", "put")
                     m["links"] = "L2"
+                    if not m.get("explicit_base"):
+                        m["base"] = "coap://[2001:db8::%x]:40000" % src
                     m["written"] = now
     if expect_error:
         code = int(r.code) if hasattr(r, "code") else -1
@@ -462,7 +494,8 @@ def canon(st):
 
 
 def job(arg):
-    first, depth = arg
+    first, depth = arg[:2]
+    ops = OPS if len(arg) < 3 else arg[2]
     prefix = first if isinstance(first[0], tuple) else (first,)      # one operation, or a tuple of operations
     first = prefix[0]
     res = Result()
@@ -473,7 +506,7 @@ def job(arg):
 
     def events(st):
         st.sw.dispose()
-        return OPS
+        return ops
 
     def check(hist, st):
         out = []
@@ -501,8 +534,10 @@ def run(tier, seed, jobs):
     firsts = [op for op in OPS if op[0] in ("reg", "badreg")]
     work = [(op, depth) for op in firsts]
     if tier == "quick":
-        # one level deeper from the two most productive starts (split by the second operation to use all cores)
-        work += [((OPS[0], op2), 4) for op2 in OPS] + [((OPS[2], op2), 4) for op2 in OPS]
+        # one level deeper from the two most productive starts (split by the second operation to use all cores), over the operations
+        # that change what the directory holds in the most different ways
+        core_ops = [op for op in OPS if op[0] in ("t", "del", "put", "updfrom") or op in CORE4]
+        work += [((OPS[0], op2), 4, core_ops) for op2 in core_ops] + [((OPS[2], op2), 4, core_ops) for op2 in core_ops]
     return core.prun(job, work, jobs)
 
 
